@@ -186,6 +186,32 @@ func normTail(z float64) float64 {
 
 const invSqrt2PiRef = 0.398942280401432677939946059934381868475858631164934657665925
 
+// tDensityRef is the Student t density written independently of the package under test:
+// c(nu)·exp(-(nu+1)/2·log1p(x²/nu)), c(nu) = Γ((nu+1)/2)/(√(nu·π)·Γ(nu/2)) through math.Lgamma for
+// nu < 200 and through its asymptotic series (1 - 1/(4nu) + 1/(32nu²) + 5/(128nu³) - 21/(2048nu⁴))/√(2π)
+// above (error < 1e-13 there). Numerical reference, not a proof.
+func tDensityRef(nu, x float64) float64 {
+	var c float64
+	if nu < 200 {
+		a, _ := math.Lgamma((nu + 1) / 2)
+		b, _ := math.Lgamma(nu / 2)
+		c = math.Exp(a-b) / math.Sqrt(nu*math.Pi)
+	} else {
+		i := 1 / nu
+		c = invSqrt2PiRef * (1 - i/4 + i*i/32 + 5*i*i*i/128 - 21*i*i*i*i/2048)
+	}
+	return c * math.Exp(-(nu+1)/2*math.Log1p(x*x/nu))
+}
+
+// tCDFRef: 1/2 + ∫_0^x of the independent density (Gauss-Legendre panels of width <= 1/4)
+func tCDFRef(nu, x float64) float64 {
+	v := quad(func(t float64) float64 { return tDensityRef(nu, t) }, 0, math.Abs(x), 0.25)
+	if x < 0 {
+		return 0.5 - v
+	}
+	return 0.5 + v
+}
+
 func xGrid(r *hx.Rand) []float64 {
 	xs := []float64{0}
 	for _, v := range []float64{1e-9, 1e-8, 1e-7, 1e-6, 1e-5, 1e-4, 1e-3, 0.01, 0.1, 0.25, 0.5, 0.75, 1, 1.25, 1.5, 1.7, 1.75, 2, 2.5, 3, 4, 5, 6.5, 7, 8, 8.3, 9, 10, 12, 15, 20, 25, 30, 35, 37, 37.5, 40, 50} {
@@ -209,7 +235,7 @@ type cdfDist interface {
 // tbl(x) returns the argument at which the code evaluates its transcendental parameter for x and
 // the value there (t: the incomplete beta argument and I; normal: the erfc argument and erfc);
 // the float64 instance of the model recomputes the argument itself and looks the value up.
-func gridCase(kind, params string, d cdfDist, inv func(float64) float64, centre, scale float64, xs []float64, tag string, tbl func(float64) (float64, float64, float64), tail func(float64) float64) {
+func gridCase(kind, params string, d cdfDist, inv func(float64) float64, centre, scale float64, xs []float64, tag string, tbl func(float64) (float64, float64, float64), tail func(float64) float64, refPDF func(float64) float64) {
 	F := make([]float64, len(xs))
 	Q := make([]float64, len(xs))
 	P := make([]float64, len(xs))
@@ -239,6 +265,28 @@ func gridCase(kind, params string, d cdfDist, inv func(float64) float64, centre,
 	for i, x := range xs {
 		T[i] = tail(x)
 	}
+	// the same cumulative quadrature over a density written independently of the package (a
+	// self-consistent but wrong PDF/CDF pair is invisible to Q)
+	Pi := make([]float64, len(xs))
+	Qi := make([]float64, len(xs))
+	{
+		for i, x := range xs {
+			Pi[i] = refPDF(x)
+		}
+		ci := sort.SearchFloat64s(xs, centre)
+		acc, prev := 0.0, centre
+		for i := ci; i < len(xs); i++ {
+			acc += quad(refPDF, prev, xs[i], 0.25*scale)
+			prev = xs[i]
+			Qi[i] = 0.5 + acc
+		}
+		acc, prev = 0.0, centre
+		for i := ci - 1; i >= 0; i-- {
+			acc += quad(refPDF, xs[i], prev, 0.25*scale)
+			prev = xs[i]
+			Qi[i] = 0.5 - acc
+		}
+	}
 	A := make([]float64, len(xs))
 	A2 := make([]float64, len(xs))
 	B := make([]float64, len(xs))
@@ -247,10 +295,10 @@ func gridCase(kind, params string, d cdfDist, inv func(float64) float64, centre,
 			A[i], A2[i], B[i] = tbl(x)
 		}
 	})
-	hx.Printf("case %d kind=%s %s c=%s xs=%s F=%s Q=%s P=%s V=%s A=%s A2=%s B=%s T=%s tag=%s\n", id, kind, params, fb(centre), fbList(xs), fbList(F), fbList(Q), fbList(P), fbList(V), fbList(A), fbList(A2), fbList(B), fbList(T), tag)
+	hx.Printf("case %d kind=%s %s c=%s xs=%s F=%s Q=%s P=%s V=%s A=%s A2=%s B=%s T=%s Pi=%s Qi=%s tag=%s\n", id, kind, params, fb(centre), fbList(xs), fbList(F), fbList(Q), fbList(P), fbList(V), fbList(A), fbList(A2), fbList(B), fbList(T), fbList(Pi), fbList(Qi), tag)
 	if ok {
 		hx.Printf("obs %d F=%s\n", id, fbList(F))
-		hx.Printf("sobs %d range=ok mono=ok sym=ok quad=ok inv=ok tail=ok\n", id)
+		hx.Printf("sobs %d range=ok mono=ok sym=ok quad=ok inv=ok tail=ok ipdf=ok iquad=ok\n", id)
 	}
 	id++
 }
@@ -274,7 +322,7 @@ func distCases(r *hx.Rand) {
 	var nus []float64
 	if shard == 0 {
 		// includes the witnesses of F22 (nu = 100, 1e4, 1e5 at |x| = 1e-9 .. 1e-3, and the inverse at 1/2)
-		nus = append(nus, 1, 1.5, 2, 2.5, 3, 4, 5, 7.3, 10, 30, 100, 1000, 1e4, 99999.5, 1e5)
+		nus = append(nus, 1, 1.5, 2, 2.5, 3, 4, 5, 7.3, 10, 30, 100, 199.5, 200, 999.5, 1000, 1000.5, 1001, 1003.7, 1500, 5000, 1e4, 2e4, 99999.5, 1e5)
 	}
 	for i := per(hx.N(48, 1600)); i > 0; i-- {
 		nus = append(nus, randNu(r))
@@ -289,7 +337,7 @@ func distCases(r *hx.Rand) {
 			}
 			arg := nu / (nu + x2)
 			return arg, nu / 2, stats.VerifC12BetaInc(arg, nu/2, 0.5)
-		}, func(float64) float64 { return math.NaN() })
+		}, func(float64) float64 { return math.NaN() }, func(x float64) float64 { return tDensityRef(nu, x) })
 	}
 	for i := per(hx.N(40, 800)); i > 0; i-- {
 		mu, sigma := 0.0, 1.0
@@ -317,6 +365,9 @@ func distCases(r *hx.Rand) {
 		}, func(x float64) float64 {
 			// lower tail: F(x) = Q(-(x-mu)/sigma), relative accuracy demanded down to -37.5 sigma
 			return normTail(-(x - mu) / sigma)
+		}, func(x float64) float64 {
+			z := (x - mu) / sigma
+			return math.Exp(-z*z/2) * invSqrt2PiRef / sigma
 		})
 	}
 }
